@@ -77,7 +77,24 @@ def literal_family(rng, w, mode):
 def single_type_program(rng, w, corpus_enc):
     fids = [10]
     utab = {}
-    t = D.gen_dep_type(rng, w, fids, utab, corpus_enc, depth=rng.choice([0, 1, 2]))
+    t = D.gen_dep_type(rng, w, fids, utab, corpus_enc, depth=rng.choice([0, 1, 2, 2, 3]))
+    defs = [{"id": 0, "pos": [t], "npos_req": 1, "kw": [], "prio": 0},
+            {"id": 1, "pos": [[0, 0]], "npos_req": 1, "kw": [], "prio": 0}]
+    return {"spec": w.spec, "defs": defs, "utab": {str(k): v for k, v in utab.items()}, "calls": [{"vals": [e]} for e in corpus_enc]}
+
+
+def nested_combo_program(rng, w, corpus_enc):
+    """(d1 & d2) | d3 and (d1 | d2) & d3 with members over different bounds: the inner combination is reached with
+    values outside its members' bounds, which only the bound tests keep away from the conditions"""
+    fids = [10]
+    utab = {}
+    ds = [D.gen_dep_type(rng, w, fids, utab, corpus_enc, depth=0, allow_combo=False) for _ in range(3)]
+    if rng.random() < 0.5:
+        t = [2, [3, ds[0], ds[1]], ds[2]]
+    else:
+        t = [3, [2, ds[0], ds[1]], ds[2]]
+    if rng.random() < 0.5:
+        t = [t[0], t[2], t[1]]
     defs = [{"id": 0, "pos": [t], "npos_req": 1, "kw": [], "prio": 0},
             {"id": 1, "pos": [[0, 0]], "npos_req": 1, "kw": [], "prio": 0}]
     return {"spec": w.spec, "defs": defs, "utab": {str(k): v for k, v in utab.items()}, "calls": [{"vals": [e]} for e in corpus_enc]}
@@ -130,6 +147,8 @@ def run(ctx):
         check_instance_matrix(ctx, stats)
         prog = single_type_program(ctx.rng, w, corpus_enc)
         check_program(ctx, prog, stats, "single_type_calls")
+        for _ in range(3):
+            check_program(ctx, nested_combo_program(ctx.rng, w, corpus_enc), stats, "nested_combination_calls")
         for mode in ("disjoint", "overlap", "mixed"):
             fam = literal_family(ctx.rng, World([]), mode)
             if len(fam["defs"]) >= 2:
@@ -140,7 +159,7 @@ def run(ctx):
             break
     return {"evaluations": stats["evaluations"], "distinct_nontrivial": len(stats["distinct"]),
             "rule": "per round: 14 random types of the closure (depth <= 2) x 20+ corpus values for isinstance; one random type with an object fallback dispatched on every corpus value; Literal families of 2-6 methods (disjoint / overlapping / mixed value types, shuffled value order, with or without fallback) dispatched on every pool value and four foreign values; a dispatch case is non-trivial (all involve a value type), distinct by (methods, tables, call)",
-            "samples": samples, "isinstance_checks": stats["isinstance_checks"], "single_type_calls": stats["single_type_calls"],
+            "samples": samples, "isinstance_checks": stats["isinstance_checks"], "single_type_calls": stats["single_type_calls"], "nested_combination_calls": stats["nested_combination_calls"],
             "literal_family_calls": {m: stats["literal_family_calls_" + m] for m in ("disjoint", "overlap", "mixed")},
             "traces_validated_against_impl": stats["evaluations"]}
 
